@@ -37,5 +37,12 @@ for d in sorted(glob.glob(ROOT + "/seeded/*/")):
         subprocess.run(["git", "-C", "/repo", "clean", "-fdq"])
     ok = any(rc == 1 and nv > 0 for _, rc, nv, _ in caught)
     print(name, "CAUGHT" if ok else "MISSED", caught, flush=True)
+    try:
+        rp = ROOT + "/seeded/results.json"
+        allr = json.load(open(rp)) if os.path.exists(rp) else {}
+        allr[name] = {"status": "caught" if ok else "missed", "checks": caught}
+        json.dump(allr, open(rp, "w"), indent=1, sort_keys=True)
+    except Exception as e:
+        print("cannot record result:", e)
     res.append((name, "caught" if ok else "missed"))
 print("summary:", {k: sum(1 for _, s in res if s == k) for k in ("caught", "missed", "no-apply")})
